@@ -144,8 +144,10 @@ impl HttpResponse {
     }
     pub async fn write_with_body(&self, socket: Writer<'_>, body: &[u8]) -> Result<(), Error> {
         self.write_to(socket).await?;
-        socket.write(body).await.context("write error")?;
-        Ok(())
+        socket.write_all(body).await.context("write error")?;
+        // the head was flushed by write_to(); without this the body stays in the write buffer and is lost when
+        // the connection is dropped right after the reply
+        socket.flush().await.context("flush")
     }
     pub fn header<'a, 'b: 'a>(&'a self, name: &str, def: &'b str) -> &'a str {
         self.headers
